@@ -94,6 +94,8 @@ func c13StrInfo(s string, units *unitTable) string {
 		optCoq(bok, coqBool(bv)), optCoq(iok, coqZ(iv)), optCoq(dok, dcoq), optCoq(dateOK, zlist(dc...)), optCoq(dtOK, zlist(dtc...)), optCoq(tOK, zlist(tc...)), optCoq(qok, qcoq), coqBool(lenient))
 }
 
+var reOddFraction = regexp.MustCompile(`:\d\d\.(\d{1,2}|\d{4,})(\D|$)`)
+
 func runC13(cfg config) {
 	sink := newSink(cfg.out, "C13", "C08.Model C05.Model C13.Model", "N * case * obs", "judge", 300)
 	input := []proto.Message{basePatient()}
@@ -170,6 +172,7 @@ func runC13(cfg config) {
 		{"TStr", "toString", "convertsToString"}, {"TDate", "toDate", "convertsToDate"}, {"TDateTime", "toDateTime", "convertsToDateTime"},
 		{"TTime", "toTime", "convertsToTime"}, {"TQty", "toQuantity", "convertsToQuantity"},
 	}
+	hiddenMismatch := map[string]string{}
 	run := func(src string, it item) string {
 		var out system.Collection
 		var err error
@@ -194,6 +197,40 @@ func runC13(cfg config) {
 			return "OEmpty"
 		case len(out) == 1:
 			if s, ok := svalOf(out[0], units); ok {
+				// a temporal result is read back through its printed form; the value behind it must be the value that form
+				// denotes: the library's own `=` against the literal of the printed form may not answer false
+				lit := ""
+				switch v := out[0].(type) {
+				case system.Date:
+					lit = "@" + v.String()
+				case system.DateTime:
+					lit = "@" + v.String()
+				case system.Time:
+					lit = "@T" + v.String()
+				}
+				if lit != "" && reOddFraction.MatchString(src+" "+it.lit+" "+fmt.Sprint(it.env)) {
+					// a fraction of seconds written with other than three digits is kept in the value but not printed
+					// (recorded under C15, known finding on sub-millisecond / short fractions): not judged again here
+					lit = ""
+				}
+				if lit != "" {
+					var eq system.Collection
+					var err2 error
+					p2, _ := protect(func() {
+						e2, cerr := fhirpath.Compile("(" + src + ") = " + lit)
+						if cerr != nil {
+							err2 = cerr
+							return
+						}
+						eq, err2 = verifhook.Evaluate(e2, input, opts...)
+					})
+					if !p2 && err2 == nil && len(eq) == 1 {
+						if b, isB := eq[0].(system.Boolean); isB && !bool(b) {
+							hiddenMismatch[src] = lit
+							return "OErr"
+						}
+					}
+				}
 				return "(OVal (" + s + "))"
 			}
 		}
@@ -210,6 +247,11 @@ func runC13(cfg config) {
 			oTwice := run(ref+"."+t.to+"()."+t.to+"()", it)
 			oRound := run(ref+".toString()."+t.to+"()", it)
 			desc := fmt.Sprintf("%s [%s %s].%s() => %s ; %s() => %s ; twice => %s ; via toString => %s", ref, it.kind, it.lit, t.to, oTo, t.conv, oConv, oTwice, oRound)
+			for _, q := range []string{ref + "." + t.to + "()", ref + "." + t.to + "()." + t.to + "()", ref + ".toString()." + t.to + "()"} {
+				if lit, bad := hiddenMismatch[q]; bad {
+					desc += fmt.Sprintf(" ; HIDDEN VALUE: (%s) = %s is false although the result prints as %s (reported as OErr)", q, lit, lit)
+				}
+			}
 			if it.env != nil {
 				if sv, ok := it.env.(system.String); ok {
 					desc = fmt.Sprintf("'%s'.%s() => %s ; %s() => %s ; twice => %s ; via toString => %s", string(sv), t.to, oTo, t.conv, oConv, oTwice, oRound)
